@@ -22,7 +22,9 @@ func RunC11(r *sim.Run) {
 	nCl := t.Range(1, 3)
 	names := []string{"alpha", "beta", "gamma"}[:nCl]
 	specs := map[string]*cspec{}
+	hist := map[string]*aspectHistory{}
 	live := map[string]bool{}
+	takenBack := 0
 	schemaNames := []string{"fc-a", "fc-b", "fc-c", ""}
 	for ci, n := range names {
 		w.AddClusterStub(n, 3, ci)
@@ -31,6 +33,7 @@ func RunC11(r *sim.Run) {
 			c.servers = append(c.servers, srvSpec{ep: e, present: i < 2})
 		}
 		specs[n] = c
+		hist[n] = newAspectHistory()
 		if err := w.Apply(c.object(certs)); err != nil {
 			r.Inconclusive("initial apply: " + firstLine(err.Error()))
 			return
@@ -55,7 +58,18 @@ func RunC11(r *sim.Run) {
 				break
 			}
 			c := specs[n].clone()
-			desc := c.mutate(t.Draw, w.EndpointsOf(n), namePool, len(certs))
+			var desc string
+			back := false
+			if k := -1; t.Draw(4) == 0 {
+				// an aspect returns to the value it had before its last change (A -> B -> A)
+				if k = hist[n].pick(t.Draw); k >= 0 {
+					desc = c.restoreAspect(hist[n].prev[k], k)
+					back = true
+				}
+			}
+			if !back {
+				desc = c.mutate(t.Draw, w.EndpointsOf(n), namePool, len(certs))
+			}
 			if err := w.Apply(c.object(certs)); err != nil {
 				rejected++
 				r.Logf("%s: %s REJECTED %s", n, desc, firstLine(err.Error()))
@@ -63,6 +77,10 @@ func RunC11(r *sim.Run) {
 				versions++
 				if w.AdmitGate.Held() {
 					lagWrites++
+				}
+				hist[n].accepted(specs[n], c)
+				if back {
+					takenBack++
 				}
 				specs[n] = c
 				r.Logf("%s v%d: %s", n, w.versions[n], desc)
@@ -191,6 +209,7 @@ func RunC11(r *sim.Run) {
 	r.ProbeN("versions_rejected_by_admission", rejected)
 	r.ProbeN("versions_written_while_admission_lagged", lagWrites)
 	r.ProbeN("deletes", deletes)
+	r.ProbeN("aspect_taken_back_to_earlier_value", takenBack)
 	r.Nontrivial = versions >= 3
 	r.Sample = map[string]interface{}{"clusters": nCl, "versions": versions, "rejected": rejected, "deletes": deletes}
 }
